@@ -1186,3 +1186,327 @@ Proof.
     - now apply (sstep_store_ext s r I ND). }
   rewrite L', L. cbn [option_map]. f_equal. eapply view_frame; eauto.
 Qed.
+
+(* ---------------------------------------------------------------- what File.Create writes *)
+
+(* the cell keeps everything but the two batch numbers *)
+Definition bshape (b' b : bcell) : Prop :=
+  bc_fam b' = bc_fam b /\ bc_iat b' = bc_iat b /\ bc_adv b' = bc_adv b /\ bc_hdr_ok b' = bc_hdr_ok b /\
+  bc_odfi b' = bc_odfi b /\ bc_keep b' = bc_keep b /\ bc_svc b' = bc_svc b /\ bc_ents b' = bc_ents b.
+
+Lemma bshape_refl b : bshape b b. Proof. repeat split. Qed.
+Lemma bshape_trans a b c : bshape a b -> bshape b c -> bshape a c.
+Proof. unfold bshape. intuition congruence. Qed.
+
+(* [cfoot qs s s']: s' differs from s at most in the numbers of the batch cells qs *)
+Record cfoot (qs : list N) (s s' : sstate) : Prop := mk_cfoot {
+  cf_store : ss_store s' = ss_store s;
+  cf_file : ss_file s' = ss_file s;
+  cf_ent : ss_ent s' = ss_ent s;
+  cf_nid : ss_nid s' = ss_nid s; cf_nf : ss_nf s' = ss_nf s; cf_nb : ss_nb s' = ss_nb s;
+  cf_ne : ss_ne s' = ss_ne s; cf_nfam : ss_nfam s' = ss_nfam s;
+  cf_bat : forall q, ~ In q qs -> ss_bat s' q = ss_bat s q;
+  cf_shape : forall q, bshape (ss_bat s' q) (ss_bat s q) }.
+
+Lemma cfoot_refl qs s : cfoot qs s s.
+Proof. split; auto using bshape_refl. Qed.
+
+Lemma cfoot_trans qs s0 s1 s2 : cfoot qs s0 s1 -> cfoot qs s1 s2 -> cfoot qs s0 s2.
+Proof.
+  intros A B. destruct A, B. split; try congruence.
+  - intros q Q. rewrite cf_bat1, cf_bat0; auto.
+  - intros q. eapply bshape_trans; eauto.
+Qed.
+
+Lemma cfoot_incl qs qs' s s' : incl qs qs' -> cfoot qs s s' -> cfoot qs' s s'.
+Proof. intros H []. split; auto. Qed.
+
+Lemma cfoot_set_num qs s q b : In q qs -> bshape b (ss_bat s q) -> cfoot qs s (set_bat s q b).
+Proof.
+  intros Q B. split; simpl; auto.
+  - intros q' Q'. apply hupd_neq. congruence.
+  - intros q'. destruct (hupd_cases (ss_bat s) q b q') as [[-> ->]|[_ ->]]; [exact B|apply bshape_refl].
+Qed.
+
+Lemma cfoot_renum : forall qs s seq, cfoot qs s (renum s seq qs).
+Proof.
+  induction qs as [|q r IH]; intros s seq; simpl; [apply cfoot_refl|].
+  eapply cfoot_trans; [|eapply cfoot_incl; [|apply IH]; intros x X; now right].
+  destruct (bc_num (ss_bat s q) <=? 1)%Z; [|apply cfoot_refl].
+  apply cfoot_set_num; [now left|repeat split].
+Qed.
+
+Lemma cfoot_renum_adv : forall qs s seq, cfoot qs s (fst (renum_adv s seq qs)).
+Proof.
+  induction qs as [|q r IH]; intros s seq; simpl; [apply cfoot_refl|].
+  destruct (bc_adv (ss_bat s q)); [|apply cfoot_refl].
+  eapply cfoot_trans; [|eapply cfoot_incl; [|apply IH]; intros x X; now right].
+  destruct (bc_num (ss_bat s q) <=? 1)%Z; [|apply cfoot_refl].
+  apply cfoot_set_num; [now left|repeat split].
+Qed.
+
+(* File.Create on object p: the numbers of p's batch cells and p's file control, nothing else *)
+Record create_foot (s : sstate) (p : N) (s' : sstate) : Prop := mk_create_foot {
+  cr_store : ss_store s' = ss_store s;
+  cr_ent : ss_ent s' = ss_ent s;
+  cr_nid : ss_nid s' = ss_nid s; cr_nf : ss_nf s' = ss_nf s; cr_nb : ss_nb s' = ss_nb s;
+  cr_ne : ss_ne s' = ss_ne s; cr_nfam : ss_nfam s' = ss_nfam s;
+  cr_other : forall p', p' <> p -> ss_file s' p' = ss_file s p';
+  cr_self : exists c, ss_file s' p = fset_ctl (ss_file s p) c;
+  cr_bat : forall q, ~ In q (all_bats (ss_file s p)) -> ss_bat s' q = ss_bat s q;
+  cr_shape : forall q, bshape (ss_bat s' q) (ss_bat s q) }.
+
+Lemma fset_ctl_self g : fset_ctl g (fo_ctl g) = g. Proof. now destruct g. Qed.
+
+Lemma create_foot_of_cfoot s p s' : cfoot (all_bats (ss_file s p)) s s' -> create_foot s p s'.
+Proof.
+  intros []. split; auto.
+  - intros p' _. now rewrite cf_file0.
+  - exists (fo_ctl (ss_file s p)). now rewrite cf_file0, fset_ctl_self.
+Qed.
+
+Lemma s_create_foot s p : create_foot s p (fst (s_create s p)).
+Proof.
+  unfold s_create.
+  destruct (negb (co_skip (fo_opts (ss_file s p))) && negb (co_nohdr (fo_opts (ss_file s p))) && negb (fo_hdr_ok (ss_file s p)));
+    [apply create_foot_of_cfoot, cfoot_refl|].
+  destruct (negb (co_skip (fo_opts (ss_file s p))) && negb (co_zero (fo_opts (ss_file s p))) && is_nil (all_bats (ss_file s p)));
+    [apply create_foot_of_cfoot, cfoot_refl|].
+  destruct (existsb (fun q => bc_adv (ss_bat s q)) (fo_bats (ss_file s p))).
+  - destruct (fo_iats (ss_file s p)) eqn:E; [|apply create_foot_of_cfoot, cfoot_refl].
+    apply create_foot_of_cfoot. eapply cfoot_incl; [|apply cfoot_renum_adv]. unfold all_bats. apply incl_appl, incl_refl.
+  - cbn [fst]. pose proof (cfoot_renum (all_bats (ss_file s p)) s 1%Z) as [].
+    split; cbn [set_file ss_store ss_ent ss_nid ss_nf ss_nb ss_ne ss_nfam ss_file ss_bat]; auto.
+    + intros p' N. rewrite hupd_neq; [now rewrite cf_file0|exact N].
+    + eexists. rewrite hupd_eq, cf_file0. reflexivity.
+Qed.
+
+Definition share_bat (s : sstate) (p p' : N) : Prop :=
+  exists q, In q (all_bats (ss_file s p)) /\ In q (all_bats (ss_file s p')).
+
+(* another file object that holds none of p's batch cells shows the same after File.Create on p *)
+Lemma create_other_view s p p' : p' <> p -> ~ share_bat s p p' ->
+  view_file (fst (s_create s p)) p' = view_file s p'.
+Proof.
+  intros N NS. destruct (s_create_foot s p) as []. 
+  apply view_file_ext; [now apply cr_other0|].
+  intros q Q. apply view_bat_ext; [|intros e _; now rewrite cr_ent0].
+  apply cr_bat0. intro X. apply NS. exists q. split; assumption.
+Qed.
+
+(* what the object itself shows after its Create: same batches and entries, new numbers and file control *)
+Lemma create_keeps_traces s p q : 
+  vb_traces (view_bat (fst (s_create s p)) q) = vb_traces (view_bat s q).
+Proof.
+  destruct (s_create_foot s p) as []. unfold view_bat. cbn [vb_traces].
+  destruct (cr_shape0 q) as [_ [_ [_ [_ [_ [_ [_ E]]]]]]]. rewrite E, cr_ent0. reflexivity.
+Qed.
+
+(* ---------------------------------------------------------------- which requests reach another file object *)
+
+Lemma view_set_file_other s p g p' : p' <> p -> view_file (set_file s p g) p' = view_file s p'.
+Proof.
+  intro N. apply view_file_ext; [simpl; now apply hupd_neq|]. intros q _. now apply view_bat_ext.
+Qed.
+
+Lemma shows_same_heap s s' j : ss_store s' = ss_store s -> (forall p, lookup (ss_store s) j = Some p -> view_file s' p = view_file s p) ->
+  shows s' j = shows s j.
+Proof. intros E V. unfold shows. rewrite E. destruct (lookup (ss_store s) j) as [p|] eqn:L; simpl; [|reflexivity]. now rewrite V. Qed.
+
+(* requests that look no stored object up, and requests whose handler only marshals / validates:
+   whatever any ID shows stays *)
+Theorem pure_requests_change_nothing s r j p' :
+  sinv s -> lookup (ss_store s) j = Some p' -> (rclass_of r = KNone \/ rclass_of r = KPure) ->
+  shows (fst (sstep s r)) j = shows s j.
+Proof.
+  intros I L C.
+  assert (FR : rclass_of r = KNone -> shows (fst (sstep s r)) j = shows s j).
+  { intro K. apply (other_family_unchanged s r j p' I L).
+    assert (T : target r = None) by (destruct r; try discriminate; reflexivity).
+    unfold req_fam. rewrite T.
+    assert (P : p' < ss_nf s) by (apply (inv_store s I j p'); now apply lookup_In).
+    pose proof (proj1 (inv_file s I p' P)). lia. }
+  destruct C as [C|C]; [now apply FR|].
+  destruct r; try discriminate; cbn [sstep]; try (destruct (lookup (ss_store s) i)); reflexivity.
+Qed.
+
+(* delete, add batch, delete batch touch the ID map / the Batches list of the object they address, nothing below it *)
+Theorem edit_stays_in_object s r i p j p' :
+  sinv s -> rclass_of r = KEdit -> target r = Some i -> lookup (ss_store s) i = Some p ->
+  lookup (ss_store s) j = Some p' -> p' <> p ->
+  shows (fst (sstep s r)) j = shows s j.
+Proof.
+  intros I C T Li Lj N.
+  assert (NE : j <> i) by (intros ->; congruence).
+  assert (P' : p' < ss_nf s) by (apply (inv_store s I j p'); now apply lookup_In).
+  destruct r; try discriminate; cbn [target] in T; inversion T; subst; cbn [sstep].
+  - cbn [fst]. unfold shows. cbn [set_store ss_store]. rewrite lookup_remove_neq by congruence.
+    rewrite Lj. reflexivity.
+  - destruct (negb decodes); [reflexivity|]. rewrite Li. destruct dup; [reflexivity|].
+    set (f := fo_fam (ss_file s p)).
+    destruct (fstep_new_pbatch (fo_fam (ss_file s p') + 1) f s false b I) as [S1 _].
+    pose proof (hsame_new_pbatch f s false b) as [E1 _].
+    destruct (new_pbatch s f false b) as [s1 q]. cbn [fst snd] in *.
+    apply shows_same_heap; [exact E1|]. intros p0 L0. assert (p0 = p') by congruence. subst p0.
+    rewrite view_set_file_other by exact N.
+    eapply view_frame; eauto. lia.
+  - rewrite Li. destruct pos; [|reflexivity]. cbn [fst].
+    apply shows_same_heap; [reflexivity|]. intros p0 L0. assert (p0 = p') by congruence. subst p0.
+    now apply view_set_file_other.
+Qed.
+
+(* contents and build reach another file object only through a batch cell both hold *)
+Theorem create_stays_in_batches s r i p j p' :
+  sinv s -> rclass_of r = KCreate -> target r = Some i -> lookup (ss_store s) i = Some p ->
+  lookup (ss_store s) j = Some p' -> p' <> p -> ~ share_bat s p p' ->
+  shows (fst (sstep s r)) j = shows s j.
+Proof.
+  intros I C T Li Lj N NS.
+  destruct r; try discriminate; cbn [target] in T; inversion T; subst; cbn [sstep]; rewrite Li; cbn [fst];
+    (apply shows_same_heap; [apply (cr_store _ _ _ (s_create_foot s p))|]);
+    intros p0 L0; assert (p0 = p') by congruence; subst p0; now apply create_other_view.
+Qed.
+
+(* flatten, segment, balance reach only file objects of the family of the one they address *)
+Theorem derive_stays_in_family s r i p j p' :
+  sinv s -> target r = Some i -> lookup (ss_store s) i = Some p ->
+  lookup (ss_store s) j = Some p' -> fo_fam (ss_file s p') <> fo_fam (ss_file s p) ->
+  shows (fst (sstep s r)) j = shows s j.
+Proof.
+  intros I T Li Lj F. apply (other_family_unchanged s r j p' I Lj). unfold req_fam. now rewrite T, Li.
+Qed.
+
+(* a request whose target is not stored changes nothing *)
+Theorem unknown_target_changes_nothing s r i :
+  target r = Some i -> lookup (ss_store s) i = None -> (forall k, r <> SDelete k) -> fst (sstep s r) = s.
+Proof.
+  intros T L ND. destruct r; try discriminate; cbn [target] in T; inversion T; subst; cbn [sstep];
+    try (rewrite L; reflexivity); try reflexivity.
+  - exfalso. eapply ND; eauto.
+  - destruct (negb decodes); [reflexivity|]. now rewrite L.
+Qed.
+
+(* ---------------------------------------------------------------- DELETE *)
+
+(* DELETE unbinds one ID and touches no object: every other ID shows what it showed — the
+   source of a derivation when the derived file is deleted, the derived file when the
+   source is, the second ID of a balanced file *)
+Theorem delete_keeps_others s i j : j <> i -> shows (fst (sstep s (SDelete i))) j = shows s j.
+Proof.
+  intro N. cbn [sstep fst]. unfold shows. cbn [set_store ss_store].
+  rewrite lookup_remove_neq by congruence. reflexivity.
+Qed.
+
+Theorem delete_then_not_shown s i : shows (fst (sstep s (SDelete i))) i = None.
+Proof. cbn [sstep fst]. unfold shows. cbn [set_store ss_store]. now rewrite lookup_remove_eq. Qed.
+
+(* ---------------------------------------------------------------- what a flattened file holds *)
+
+(* the Batches / IATBatches lists of the objects that exist stay as they are *)
+Definition lkept (s s' : sstate) : Prop :=
+  ss_nf s <= ss_nf s' /\ ss_nb s <= ss_nb s' /\
+  forall p, p < ss_nf s -> fo_bats (ss_file s' p) = fo_bats (ss_file s p) /\ fo_iats (ss_file s' p) = fo_iats (ss_file s p).
+
+Lemma lkept_refl s : lkept s s. Proof. repeat split; lia. Qed.
+
+Lemma lkept_trans s0 s1 s2 : lkept s0 s1 -> lkept s1 s2 -> lkept s0 s2.
+Proof.
+  intros [A [B C]] [D [E F]]. split; [lia|]. split; [lia|]. intros p P.
+  destruct (C p P) as [C1 C2]. destruct (F p ltac:(lia)) as [F1 F2]. split; congruence.
+Qed.
+
+Lemma lkept_files s s' : ss_file s' = ss_file s -> ss_nf s <= ss_nf s' -> ss_nb s <= ss_nb s' -> lkept s s'.
+Proof. intros E A B. split; [exact A|]. split; [exact B|]. intros p _. now rewrite E. Qed.
+
+Lemma lkept_create s p : lkept s (fst (s_create s p)).
+Proof.
+  destruct (s_create_foot s p) as []. split; [lia|]. split; [lia|]. intros p' _.
+  destruct (N.eq_dec p' p) as [->|NE]; [|now rewrite cr_other0].
+  destruct cr_self0 as [c ->]. split; reflexivity.
+Qed.
+
+Lemma file_retrace odfi keep : forall reach es s seq, ss_file (retrace_cells s odfi keep seq reach es) = ss_file s
+  /\ ss_nf (retrace_cells s odfi keep seq reach es) = ss_nf s /\ ss_nb (retrace_cells s odfi keep seq reach es) = ss_nb s
+  /\ ss_bat (retrace_cells s odfi keep seq reach es) = ss_bat s.
+Proof.
+  induction reach as [|k IH]; intros es s seq; simpl; [auto|]. destruct es as [|e r]; [auto|].
+  destruct (IH r (set_ent s e (retrace_cell odfi keep seq (ss_ent s e))) (seq + 1)%Z) as [A [B [C D]]].
+  rewrite A, B, C, D. auto.
+Qed.
+
+Lemma file_build s q reach : ss_file (s_build s q reach) = ss_file s /\ ss_nf (s_build s q reach) = ss_nf s
+  /\ ss_nb (s_build s q reach) = ss_nb s /\ ss_bat (s_build s q reach) = ss_bat s.
+Proof. unfold s_build. destruct (bc_hdr_ok (ss_bat s q)); [apply file_retrace|auto]. Qed.
+
+(* the consolidated batches are new cells *)
+Lemma flat_group_fresh p g s bs js n0 :
+  n0 <= ss_nb s -> (forall q, In q (bs ++ js) -> n0 <= q) ->
+  let r := flat_group p (s, (bs, js)) g in
+  ss_file (fst r) = ss_file s /\ ss_nf (fst r) = ss_nf s /\ ss_nb s <= ss_nb (fst r) /\
+  (forall q, In q (fst (snd r) ++ snd (snd r)) -> n0 <= q).
+Proof.
+  intros L F. unfold flat_group. destruct (somes (map (bat_at s p) (g_srcs g))) as [|q0 qs]; cbn zeta.
+  - cbn [fst snd]. repeat split; auto; lia.
+  - cbn [new_bat]. match goal with |- context [s_build ?a ?b ?c] => destruct (file_build a b c) as [A [B [C D]]] end.
+    destruct (bc_iat (ss_bat s q0)); cbn [fst snd]; rewrite A, B, C; cbn [ss_file ss_nf ss_nb];
+      (split; [reflexivity|]; split; [reflexivity|]; split; [lia|]); intros q X;
+      repeat (apply in_app_or in X; destruct X as [X|X]); try (apply F; apply in_or_app; auto; fail);
+      destruct X as [<-|[]]; lia.
+Qed.
+
+Lemma fold_flat_fresh p n0 : forall gs s bs js,
+  n0 <= ss_nb s -> (forall q, In q (bs ++ js) -> n0 <= q) ->
+  let r := fold_left (flat_group p) gs (s, (bs, js)) in
+  ss_file (fst r) = ss_file s /\ ss_nf (fst r) = ss_nf s /\ ss_nb s <= ss_nb (fst r) /\
+  (forall q, In q (fst (snd r) ++ snd (snd r)) -> n0 <= q).
+Proof.
+  induction gs as [|g r IH]; intros s bs js L F; cbn [fold_left].
+  - cbn [fst snd]. repeat split; auto; lia.
+  - destruct (flat_group_fresh p g s bs js n0 L F) as [A [B [C D]]].
+    destruct (flat_group p (s, (bs, js)) g) as [s1 [bs1 js1]]. cbn [fst snd] in *.
+    destruct (IH s1 bs1 js1 ltac:(lia) D) as [A2 [B2 [C2 D2]]].
+    rewrite A2, B2, A, B. repeat split; auto; lia.
+Qed.
+
+(* After a flatten that stored its result: the new ID is bound to a new object whose batch
+   cells are all new; the Batches lists of the objects that existed are as they were.  So the
+   flattened file shares NO BATCH CELL with any other file object (only entry cells). *)
+Theorem flatten_result_cells s p gs hdr s1 :
+  sinv s -> p < ss_nf s -> s_create s p = (s1, SOk) ->
+  let s' := s_flatten s p (FlatOk gs hdr) in
+  lookup (ss_store s') (Gen (ss_nid s)) = Some (ss_nf s) /\
+  (forall q, In q (all_bats (ss_file s' (ss_nf s))) -> ss_nb s <= q) /\
+  lkept s s'.
+Proof.
+  intros I P C. unfold s_flatten. rewrite C.
+  pose proof (hsame_create s p) as [H1a H1b]. pose proof (lkept_create s p) as K1.
+  destruct (s_create_foot s p) as []. rewrite C in *. cbn [fst] in *.
+  destruct (fold_flat_fresh p (ss_nb s1) gs s1 [] []) as [A [B [D F]]]; [lia|intros q []|].
+  pose proof (hsame_fold_flat p gs s1 [] []) as [H2a H2b].
+  destruct (fold_left (flat_group p) gs (s1, ([], []))) as [s2 [bs js]]. cbn [fst snd] in *.
+  set (g := mkfo _ _ _ _ _ bs js _).
+  cbn [new_file fst snd].
+  set (s3 := mkss (ss_store s2) (hupd (ss_file s2) (ss_nf s2) g) (ss_bat s2) (ss_ent s2) (ss_nid s2) (ss_nf s2 + 1) (ss_nb s2) (ss_ne s2) (ss_nfam s2)).
+  pose proof (hsame_create s3 (ss_nf s2)) as [H4a H4b].
+  destruct (s_create_foot s3 (ss_nf s2)) as [X1 X2 X3 X4 X5 X6 X7 X8 X9 X10 X11].
+  cbn [set_store ss_store ss_file lookup].
+  rewrite H4b. cbn [s3 ss_nid]. rewrite H2b, H1b. rewrite id_eqb_refl.
+  split; [f_equal; congruence|].
+  assert (NF : ss_nf s2 = ss_nf s) by congruence.
+  split.
+  - rewrite <- NF. destruct X9 as [c ->]. cbn [s3 ss_file]. rewrite hupd_eq. unfold all_bats. cbn [fset_ctl fo_bats fo_iats g].
+    intros q Q. specialize (F q Q). lia.
+  - eapply lkept_trans; [exact K1|]. eapply lkept_trans; [apply (lkept_files s1 s2); [exact A|lia|lia]|].
+    eapply lkept_trans; [|apply (lkept_create s3 (ss_nf s2))].
+    split; [cbn [s3 ss_nf]; lia|]. split; [cbn [s3 ss_nb]; lia|]. intros p' P'. cbn [s3 ss_file]. rewrite hupd_neq by lia. auto.
+Qed.
+
+Corollary flatten_result_shares_no_batch s p gs hdr s1 p' :
+  sinv s -> p < ss_nf s -> s_create s p = (s1, SOk) -> p' < ss_nf s ->
+  ~ share_bat (s_flatten s p (FlatOk gs hdr)) (ss_nf s) p'.
+Proof.
+  intros I P C P' [q [Q1 Q2]].
+  destruct (flatten_result_cells s p gs hdr s1 I P C) as [_ [F [_ [_ K]]]].
+  specialize (F q Q1). destruct (K p' P') as [K1 K2]. unfold all_bats in Q2. rewrite K1, K2 in Q2.
+  destruct (reach_bat s p' q I P' Q2). lia.
+Qed.
